@@ -16,9 +16,10 @@ var All = map[string]*fw.Prop{
 	"C12": C12,
 	"C13": C13,
 	"C14": C14,
+	"C15": C15,
 	"C16": C16,
 	"C17": C17,
 }
 
 // StopServers ends the server subprocesses the socket-level checks started.
-func StopServers() { sysStopAll() }
+func StopServers() { sysStopAll(); attStopAll() }
